@@ -184,14 +184,14 @@ def h07(c, U=3, R=1, other_market=False, suspensions=False, real_time_error=Fals
 OUT = ["paper trading (time.sleep on pool threads)", "more than U updates / R requests",
        "an aggressive fill is stamped with the publish time of the book it was matched against (the previous update): asserted to be that book's time and not earlier than the request, see DESIGN 8"]
 HARNESSES = [
-    Harness("H07", h07, quick=dict(U=3, R=1), thorough=dict(U=4, R=1), pattern="P3 with symbolic time", requires=["run", "executed", "not-yet-due", "replacement"], outside=OUT,
+    Harness("H07", h07, quick=dict(U=3, R=1), thorough=dict(U=5, R=1), pattern="P3 with symbolic time", requires=["run", "executed", "not-yet-due", "replacement"], outside=OUT,
             max_paths=(300000, 3000000), wall_s=(300, 3000)),
-    Harness("H07-2req", h07, quick=dict(U=3, R=2), thorough=dict(U=4, R=2), pattern="P3 with symbolic time", requires=["run", "executed"], outside=OUT,
+    Harness("H07-2req", h07, quick=dict(U=3, R=2), thorough=dict(U=5, R=2), pattern="P3 with symbolic time", requires=["run", "executed"], outside=OUT,
             max_paths=(300000, 3000000), wall_s=(300, 3000)),
-    Harness("H07-susp", h07, quick=dict(U=3, R=1, suspensions=True), thorough=dict(U=4, R=1, suspensions=True), pattern="P3 with symbolic time",
+    Harness("H07-susp", h07, quick=dict(U=3, R=1, suspensions=True), thorough=dict(U=5, R=1, suspensions=True), pattern="P3 with symbolic time",
             requires=["run", "executed", "suspended-update"], outside=OUT, max_paths=(300000, 3000000), wall_s=(300, 3000)),
     Harness("H07-rt", h07, quick=dict(U=3, R=1, real_time_error=True), pattern="P3 with symbolic time", requires=["run", "executed"], outside=OUT),
-    Harness("H07-2mkt", h07, quick=dict(U=3, R=1, other_market=True), thorough=dict(U=4, R=1, other_market=True), pattern="P3 with symbolic time",
+    Harness("H07-2mkt", h07, quick=dict(U=3, R=1, other_market=True), thorough=dict(U=5, R=1, other_market=True), pattern="P3 with symbolic time",
             requires=["run", "executed", "other-market-update"], outside=OUT, max_paths=(300000, 3000000), wall_s=(300, 3000)),
 ]
 META = {"assumptions": ["publish times: integer milliseconds, strictly increasing, gaps 1 ms .. 10 min; latencies every 0.001 s value in [0, 5]; bet delay 0..12"]}
